@@ -232,6 +232,7 @@ type Spec struct {
 	Text   string  `json:"text_hex,omitempty"` // mode text: configuration source (hex)
 	JSON   bool    `json:"json,omitempty"`     // mode text: the source is JSON
 	Note   string  `json:"note,omitempty"`
+	Dest   *Dest   `json:"dest,omitempty"` // mode roundtrip: the destination body is not a fresh file (dest.go)
 }
 
 func (s *Spec) String() string {
